@@ -52,3 +52,63 @@ REG.contract('C14', U, 'do_define_meson', params={'regex': Obj, 'line': Str, 'co
              ],
              raises={'MesonException': "len(split0(line)) != 2 or (split0(line)[1] in confdata.values and not isinstance(confdata.values[split0(line)[1]][0], (str, int)))"},
              floor=8, note='clause 4 (string value copied with no further substitution) is what the statement says; the code scans the rendered line again — recorded known finding')
+
+# ---- the line loop of the meson format: every line of the template is rendered on its own, in order; nothing is lost, added or
+# reordered.  The two per-line renderers are uninterpreted here (their own contracts are above); meson_lines / cmake_lines
+# (specs/conf.py) are the line-by-line meaning, defined by recursion on the number of lines.
+from pyvc.api import List as _List, Rec as _Rec
+from specs.conf import SubstR
+RX = "fn_get_variable_regex('meson')"
+REG.contract('C14', U, 'do_conf_str_meson', params={'src': Str, 'data': _List(Str), 'confdata': Obj, 'subproject': Const(None)},
+             ensures=[f'result[0] == meson_lines({RX}, data, confdata, len(data))',
+                      'len(result[0]) == len(data)'],
+             raises={'MesonException': 'True'}, exact_raises=False,
+             loops={0: Loop(invariant=[f'result == meson_lines({RX}, data, confdata, __i)', 'len(result) == __i'],
+                            locals={'confdata_useless': Bool, 'line': Str, 'missing': Set(Str), 'result': _List(Str), 'missing_variables': Set(Str)})},
+             opaque_fns={'get_variable_regex': ([Str], Obj), 'do_define_meson': ([Obj, Str, Obj], Str), 'do_replacement_meson': ([Obj, Str, Obj], SubstR)},
+             opaque={'keys': ([], Obj)}, floor=4,
+             note='line k of the output is the rendering of line k of the template and of nothing else: a #mesondefine line by do_define_meson, any other line by the placeholder scanner; a #cmakedefine in a meson-format template is an error')
+
+# ---- the file layer: what is read, what is rendered, what is written
+OPN = "[e for e in __trace__ if e[0] == 'open']"
+WR = "[e for e in __trace__ if e[0] == 'file.writelines']"
+CS = "[e for e in __trace__ if e[0] == 'do_conf_str']"
+RID = "[e for e in __trace__ if e[0] == 'replace_if_different']"
+ConfR = _Rec('ConfR', result=Seq(Str), missing=Set(Str), useless=Bool)
+REG.contract('C14', U, 'do_conf_file', params={'src': Str, 'dst': Str, 'confdata': Obj, 'variable_format': Str, 'encoding': Str, 'subproject': Const(None)},
+             ensures=[
+                 # the template is read as text WITHOUT newline translation (newline=''): \r\n and \r reach the output as they are
+                 f"len({OPN}) == 2 and {OPN}[0][1] == src and kw({OPN}[0], 'newline', None) == '' and kw({OPN}[0], 'encoding', None) == encoding",
+                 # the lines handed to the renderer are the lines of the file, all of them, in order
+                 f"len({CS}) == 1 and {CS}[0][2] == fs_lines(src) and {CS}[0][3] is confdata and {CS}[0][4] == variable_format",
+                 # what is written is exactly what the renderer returned, again without newline translation, to a temporary
+                 f"{OPN}[1][1] == dst + '~' and kw({OPN}[1], 'newline', None) == '' and kw({OPN}[1], 'encoding', None) == encoding",
+                 f"len({WR}) == 1 and {WR}[0][1] == dst + '~' and {WR}[0][2] == {CS}[0][-1].result",
+                 # and the destination is only replaced through replace_if_different (unchanged output is not touched)
+                 f"len({RID}) == 1 and {RID}[0][1] == dst and {RID}[0][2] == dst + '~'",
+             ],
+             raises={'MesonException': 'True'}, exact_raises=False,
+             effects={'do_conf_str': {'returns': ConfR, 'raises': ['MesonException']}, 'replace_if_different': []},
+             floor=5,
+             note='configure_file(input:, configuration:): the template is read and the result written as text without newline translation; the renderer sees every line of the file exactly once, in order')
+
+# ---- the dispatch on the format, and the line loop of the cmake formats
+DM = "[e for e in __trace__ if e[0] == 'do_conf_str_meson']"
+DC = "[e for e in __trace__ if e[0] == 'do_conf_str_cmake']"
+REG.contract('C14', U, 'do_conf_str', params={'src': Str, 'data': _List(Str), 'confdata': Obj, 'variable_format': Str, 'subproject': Const(None)},
+             ensures=[f"implies(variable_format == 'meson', len({DM}) == 1 and len({DC}) == 0)",
+                      f"implies(variable_format == 'meson', ({DM}[0][2] == data and {DM}[0][3] is confdata and result is {DM}[0][-1]) if len({DM}) == 1 else False)",
+                      "variable_format in ('meson', 'cmake', 'cmake@')",
+                      f"implies(variable_format != 'meson', len({DC}) == 1 and len({DM}) == 0)",
+                      f"implies(variable_format != 'meson', ({DC}[0][2] == data and {DC}[0][3] is confdata and {DC}[0][4] == (variable_format == 'cmake@') and result is {DC}[0][-1]) if len({DC}) == 1 else False)"],
+             raises={'MesonException': 'True'}, exact_raises=False,
+             effects={'do_conf_str_meson': {'returns': Obj, 'raises': ['MesonException']}, 'do_conf_str_cmake': {'returns': Obj, 'raises': ['MesonException']}}, floor=5,
+             note="the format selects the renderer: 'meson' the meson one, 'cmake' / 'cmake@' the cmake one with at_only = (format == 'cmake@'); anything else is an error")
+REG.contract('C14', U, 'do_conf_str_cmake', params={'src': Str, 'data': _List(Str), 'confdata': Obj, 'at_only': Bool, 'subproject': Const(None)},
+             ensures=['result[0] == cmake_lines(data, confdata, at_only, len(data))', 'len(result[0]) == len(data)'],
+             raises={'MesonException': 'True'}, exact_raises=False,
+             loops={0: Loop(invariant=['result == cmake_lines(data, confdata, at_only, __i)', 'len(result) == __i'],
+                            locals={'confdata_useless': Bool, 'line': Str, 'missing': Set(Str), 'result': _List(Str), 'missing_variables': Set(Str), 'stripped_line': Str})},
+             opaque_fns={'do_define_cmake': ([Str, Obj, Bool], Str), 'do_replacement_cmake': ([Str, Bool, Obj], SubstR)},
+             opaque={'keys': ([], Obj)}, method_effects={'single_use': []}, floor=4,
+             note='cmake formats: line k of the output is the rendering of line k of the template and of nothing else: a `# cmakedefine` line (blanks allowed around the #) by do_define_cmake, any other line by the cmake placeholder scanner; a #mesondefine in a cmake-format template is an error')
